@@ -156,7 +156,7 @@ def run(tier, t0):
     acc.sample({'n': hex(rm.encode((11, 4) + (3,) * 28)), 'kind': 'resolution 29 cell id'})
     rule = (f'all 65536 values of each 16-bit lane over 4 backgrounds (0, all-ones, 0x5555.., 0x0123..), single bits, complements, 2^k-1, 2^k+1, every nibble value at every '
             f'position, and every valid cell id of resolutions -1..{R}; non-trivial = values above 2^32 (where all real ids live) that round-tripped and re-parsed from '
-            'upper-case and zero-padded spellings; plus every order of up to 3 format/parse calls on fresh values')
+            'upper-case, alternating-case and zero-padded spellings; plus every order of up to 3 format/parse calls on fresh values')
     return common.finish(PID, LEVEL, tier, acc, t0, rule, [
         '2^64 values cannot be enumerated; the conversion is digit-wise, so lanes x backgrounds plus all single-digit perturbations is the bounded space',
     ], exhaustive=False)
